@@ -336,18 +336,21 @@ theorem decomposeGlyph_rank (gs : GlyphSet) (rank : String → Nat) (hr : Ranked
     If `g'` (whose components still point below `name`) draws what `g = gs[name]` drew, then in `gs.set name g'`
     every component list draws what it drew in `gs`. -/
 theorem set_preserves_render (gs : GlyphSet) (rank : String → Nat) (hr : Ranked gs rank)
+    (hns : ∀ n g, gs.get? n = some g → ∀ k ∈ g.comps, k.t.det ≠ 0)
     (name : String) (g g' : Glyph) (hget : gs.get? name = some g)
-    (hrank' : ∀ k ∈ g'.comps, rank k.base < rank name)
-    (heq : ∀ S f, rank name < f → (render f gs S g').Perm (render f gs S g)) :
-    ∀ (r : Nat) (ks : List Comp) (S : Affine) (f : Nat), (∀ k ∈ ks, rank k.base < r) → r ≤ f →
+    (hrank' : ∀ k ∈ g'.comps, rank k.base < rank name) (hns' : ∀ k ∈ g'.comps, k.t.det ≠ 0)
+    (heq : ∀ S f, S.det ≠ 0 → rank name < f → (render f gs S g').Perm (render f gs S g)) :
+    ∀ (r : Nat) (ks : List Comp) (S : Affine) (f : Nat), (∀ k ∈ ks, rank k.base < r) → (∀ k ∈ ks, k.t.det ≠ 0) →
+      S.det ≠ 0 → r ≤ f →
       (ks.flatMap (renderOne f (gs.set name g') S)).Perm (ks.flatMap (renderOne f gs S)) := by
   intro r
   induction r using Nat.strongRecOn with
   | _ r ih =>
-    intro ks S f hks hrf
+    intro ks S f hks hkd hS hrf
     apply perm_flatMap_left
     intro k hk
     have hlt := hks k hk
+    have hSk : (S.compose k.t).det ≠ 0 := det_compose_ne hS (hkd k hk)
     unfold renderOne
     rw [get?_set gs name k.base g g' hget]
     obtain ⟨f', rfl⟩ : ∃ x, f = x + 1 := ⟨f - 1, by omega⟩
@@ -356,10 +359,10 @@ theorem set_preserves_render (gs : GlyphSet) (rank : String → Nat) (hr : Ranke
       have hgk : gs.get? k.base = some g := by rw [hn]; exact hget
       rw [hgk]
       dsimp only
-      refine Perm.trans ?_ (heq (S.compose k.t) (f' + 1) (by rw [← hn]; omega))
+      refine Perm.trans ?_ (heq (S.compose k.t) (f' + 1) hSk (by rw [← hn]; omega))
       rw [render_succ, render_succ]
       refine Perm.append_left _ ?_
-      exact ih (rank name) (by rw [← hn]; exact hlt) g'.comps _ f' hrank' (by rw [← hn]; omega)
+      exact ih (rank name) (by rw [← hn]; exact hlt) g'.comps _ f' hrank' hns' hSk (by rw [← hn]; omega)
     · rw [if_neg hn]
       cases hb : gs.get? k.base with
       | none => exact Perm.refl _
@@ -367,6 +370,335 @@ theorem set_preserves_render (gs : GlyphSet) (rank : String → Nat) (hr : Ranke
         dsimp only
         rw [render_succ, render_succ]
         refine Perm.append_left _ ?_
-        exact ih (rank k.base) hlt b.comps _ f' (hr k.base b hb) (by omega)
+        exact ih (rank k.base) hlt b.comps _ f' (hr k.base b hb) (hns k.base b hb) hSk (by omega)
+
+end Ufo2ft
+
+namespace Ufo2ft
+open List
+
+theorem drawContours_invol (t : Affine) (cs : List Contour)
+    (h : ∀ c ∈ cs, reverseContour (reverseContour c) = c) :
+    ∀ c ∈ drawContours true t cs, reverseContour (reverseContour c) = c := by
+  intro c' hc'
+  simp only [drawContours, mem_map] at hc'
+  obtain ⟨c, hc, rfl⟩ := hc'
+  rw [reverseContour_map, reverseContour_map]
+  congr 1
+  by_cases hd : (true && decide (t.det < 0)) = true
+  · simp only [hd, if_true]; rw [h c hc]
+  · simp only [hd]; exact h c hc
+
+/-- what the pen emits is again non-singular and reversal-involutive -/
+def KeepOne (gs : GlyphSet) (nested : Bool) (fuel : Nat) : Prop :=
+  ∀ incl base t D, addComp fuel gs true nested incl base t = .ok D → t.det ≠ 0 →
+    (∀ k ∈ D.comps, k.t.det ≠ 0) ∧ (∀ c ∈ D.contours, reverseContour (reverseContour c) = c)
+def KeepMany (gs : GlyphSet) (nested : Bool) (fuel : Nat) : Prop :=
+  ∀ incl t ks D, addComps fuel gs true nested incl t ks = .ok D → t.det ≠ 0 → (∀ k ∈ ks, k.t.det ≠ 0) →
+    (∀ k ∈ D.comps, k.t.det ≠ 0) ∧ (∀ c ∈ D.contours, reverseContour (reverseContour c) = c)
+
+theorem keepMany_of_keepOne (gs : GlyphSet) (nested : Bool) (fuel : Nat)
+    (h1 : KeepOne gs nested fuel) : KeepMany gs nested fuel := by
+  intro incl t ks
+  induction ks with
+  | nil =>
+    intro D hD _ _
+    simp only [addComps] at hD; cases hD
+    exact ⟨fun k hk => (by cases hk), fun c hc => (by cases hc)⟩
+  | cons k0 ks ih =>
+    intro D hD ht hks
+    simp only [addComps] at hD
+    cases h0 : addComp fuel gs true nested incl k0.base (t.compose k0.t) with
+    | error e => rw [h0] at hD; cases hD
+    | ok d =>
+      rw [h0] at hD
+      cases hr : addComps fuel gs true nested incl t ks with
+      | error e => rw [hr] at hD; cases hD
+      | ok d' =>
+        rw [hr] at hD
+        have hD' := Except.ok.inj hD
+        subst hD'
+        have p1 := h1 incl k0.base _ d h0 (det_compose_ne ht (hks k0 mem_cons_self))
+        have p2 := ih d' hr ht (fun k' hk' => hks k' (mem_cons_of_mem _ hk'))
+        simp only [Drawn.append, mem_append]
+        exact ⟨fun k hk => hk.elim (p1.1 k) (p2.1 k), fun c hc => hc.elim (p1.2 c) (p2.2 c)⟩
+
+theorem keepOne_succ (gs : GlyphSet) (rank : String → Nat) (hg : Good gs rank) (nested : Bool) (fuel : Nat)
+    (h2 : KeepMany gs nested fuel) : KeepOne gs nested (fuel + 1) := by
+  intro incl base t D hD ht
+  unfold addComp at hD
+  by_cases hi : isIncluded incl base = true
+  · rw [if_pos hi] at hD
+    cases hb : gs.get? base with
+    | none => rw [hb] at hD; cases hD
+    | some b =>
+      rw [hb] at hD
+      dsimp only at hD
+      cases hd : addComps fuel gs true nested (inclNested nested incl) t b.comps with
+      | error e => rw [hd] at hD; cases hD
+      | ok d =>
+        rw [hd] at hD
+        have hD' := Except.ok.inj hD
+        subst hD'
+        have p := h2 _ t b.comps d hd ht (hg.nonsing base b hb)
+        refine ⟨p.1, ?_⟩
+        intro c hc
+        rcases mem_append.mp hc with hc | hc
+        · exact drawContours_invol t b.contours (hg.invol base b hb) c hc
+        · exact p.2 c hc
+  · rw [if_neg hi] at hD
+    have hD' := Except.ok.inj hD
+    subst hD'
+    exact ⟨fun k hk => (by simp only [mem_singleton] at hk; subst hk; exact ht), fun c hc => (by cases hc)⟩
+
+theorem pen_keep (gs : GlyphSet) (rank : String → Nat) (hg : Good gs rank) (nested : Bool) :
+    ∀ fuel, KeepOne gs nested fuel ∧ KeepMany gs nested fuel := by
+  intro fuel
+  induction fuel with
+  | zero =>
+    have h0 : KeepOne gs nested 0 := by
+      intro incl base t D hD; simp only [addComp] at hD; cases hD
+    exact ⟨h0, keepMany_of_keepOne gs nested 0 h0⟩
+  | succ n ih =>
+    have h1 := keepOne_succ gs rank hg nested n ih.2
+    exact ⟨h1, keepMany_of_keepOne gs nested (n + 1) h1⟩
+
+/-- one in-place decomposition keeps the glyph set `Good` (same rank function) -/
+theorem decompose_set_good (gs : GlyphSet) (rank : String → Nat) (hg : Good gs rank) (nested : Bool)
+    (incl : Option (List String)) (name : String) (g g' : Glyph) (hget : gs.get? name = some g)
+    (h : decomposeGlyph gs nested incl g = .ok g') : Good (gs.set name g') rank := by
+  have hrk := decomposeGlyph_rank gs rank hg.ranked nested incl g g' (rank name) (hg.ranked name g hget) h
+  have hkeep : (∀ k ∈ g'.comps, k.t.det ≠ 0) ∧ (∀ c ∈ g'.contours, reverseContour (reverseContour c) = c) := by
+    unfold decomposeGlyph at h
+    cases hd : addComps (gs.length + 1) gs true nested incl Affine.id g.comps with
+    | error e => rw [hd] at h; cases h
+    | ok d =>
+      rw [hd] at h
+      have h' := Except.ok.inj h
+      subst h'
+      have hid : Affine.id.det ≠ 0 := by simp only [Affine.id, Affine.det]; grind
+      have p := (pen_keep gs rank hg nested (gs.length + 1)).2 incl Affine.id g.comps d hd hid (hg.nonsing name g hget)
+      refine ⟨p.1, ?_⟩
+      intro c hc
+      rcases mem_append.mp hc with hc | hc
+      · exact hg.invol name g hget c hc
+      · exact p.2 c hc
+  refine ⟨?_, ?_, ?_⟩
+  · intro n h' hn k hk
+    rw [get?_set gs name n g g' hget] at hn
+    by_cases e : n = name
+    · rw [if_pos e] at hn; have := Option.some.inj hn; subst this; rw [e]; exact hrk k hk
+    · rw [if_neg e] at hn; exact hg.ranked n h' hn k hk
+  · intro n h' hn k hk
+    rw [get?_set gs name n g g' hget] at hn
+    by_cases e : n = name
+    · rw [if_pos e] at hn; have := Option.some.inj hn; subst this; exact hkeep.1 k hk
+    · rw [if_neg e] at hn; exact hg.nonsing n h' hn k hk
+  · intro n h' hn c hc
+    rw [get?_set gs name n g g' hget] at hn
+    by_cases e : n = name
+    · rw [if_pos e] at hn; have := Option.some.inj hn; subst this; exact hkeep.2 c hc
+    · rw [if_neg e] at hn; exact hg.invol n h' hn c hc
+
+/-- two glyph sets draw the same: same keys, and for every name the two glyphs render (under any transform,
+    with enough fuel) permutations of each other -/
+def SameRender (rank : String → Nat) (a b : GlyphSet) : Prop :=
+  ∀ n, (a.get? n).isSome = (b.get? n).isSome ∧
+    ∀ ga gb, a.get? n = some ga → b.get? n = some gb →
+      ∀ S f, S.det ≠ 0 → rank n < f → (render f a S ga).Perm (render f b S gb)
+
+/-- **Theorem C (one step)**: decomposing one glyph of the set in place (any include set, nested or not) leaves
+    what EVERY glyph of the set draws unchanged. -/
+theorem decompose_set_sameRender (gs : GlyphSet) (rank : String → Nat) (hg : Good gs rank) (nested : Bool)
+    (incl : Option (List String)) (name : String) (g g' : Glyph) (hget : gs.get? name = some g)
+    (h : decomposeGlyph gs nested incl g = .ok g') : SameRender rank (gs.set name g') gs := by
+  have hrk := decomposeGlyph_rank gs rank hg.ranked nested incl g g' (rank name) (hg.ranked name g hget) h
+  have heq : ∀ S f, S.det ≠ 0 → rank name < f → (render f gs S g').Perm (render f gs S g) := by
+    intro S f hS hf
+    obtain ⟨f', rfl⟩ : ∃ x, f = x + 1 := ⟨f - 1, by omega⟩
+    exact decomposeGlyph_render gs rank hg nested incl g g' (hg.nonsing name g hget) h S hS f'
+      (fun k hk => by have := hg.ranked name g hget k hk; omega)
+  intro n
+  constructor
+  · rw [get?_set gs name n g g' hget]
+    by_cases e : n = name
+    · rw [if_pos e, e, hget]; rfl
+    · rw [if_neg e]
+  · intro ga gb ha hb S f hS hf
+    rw [get?_set gs name n g g' hget] at ha
+    obtain ⟨f', rfl⟩ : ∃ x, f = x + 1 := ⟨f - 1, by omega⟩
+    have hkeep := decompose_set_good gs rank hg nested incl name g g' hget h
+    have hns' : ∀ k ∈ g'.comps, k.t.det ≠ 0 := by
+      intro k hk
+      have : (gs.set name g').get? name = some g' := by rw [get?_set gs name name g g' hget]; simp
+      exact hkeep.nonsing name g' this k hk
+    have B := set_preserves_render gs rank hg.ranked hg.nonsing name g g' hget hrk hns' heq
+    by_cases e : n = name
+    · rw [if_pos e] at ha
+      have := Option.some.inj ha; subst this
+      have hgb : gb = g := by rw [e, hget] at hb; exact (Option.some.inj hb).symm
+      subst hgb
+      refine Perm.trans ?_ (heq S (f' + 1) hS (by rw [← e]; exact hf))
+      rw [render_succ, render_succ]
+      refine Perm.append_left _ ?_
+      exact B (rank name) g'.comps S f' hrk hns' hS (by rw [← e]; omega)
+    · rw [if_neg e] at ha
+      have hgb : gb = ga := by rw [ha] at hb; exact (Option.some.inj hb).symm
+      subst hgb
+      rw [render_succ, render_succ]
+      refine Perm.append_left _ ?_
+      exact B (rank n) gb.comps S f' (hg.ranked n gb ha) (hg.nonsing n gb ha) hS (by omega)
+
+end Ufo2ft
+
+namespace Ufo2ft
+open List
+
+/-- dict keys are the glyph names -/
+def Named (gs : GlyphSet) : Prop := ∀ n g, gs.get? n = some g → g.name = n
+
+theorem SameRender.refl (rank : String → Nat) (a : GlyphSet) : SameRender rank a a := by
+  intro n
+  refine ⟨rfl, ?_⟩
+  intro ga gb ha hb S f _ _
+  rw [ha] at hb; rw [Option.some.inj hb]
+
+theorem SameRender.trans {rank : String → Nat} {a b c : GlyphSet}
+    (h1 : SameRender rank a b) (h2 : SameRender rank b c) : SameRender rank a c := by
+  intro n
+  obtain ⟨e1, p1⟩ := h1 n
+  obtain ⟨e2, p2⟩ := h2 n
+  refine ⟨e1.trans e2, ?_⟩
+  intro ga gc ha hc S f hS hf
+  cases hb : b.get? n with
+  | none => rw [ha, hb] at e1; cases e1
+  | some gb => exact (p1 ga gb ha hb S f hS hf).trans (p2 gb gc hb hc S f hS hf)
+
+/-- a filter step that either leaves the glyph set alone or decomposes the visited glyph in place -/
+def IsDecompStep (step : FState → Glyph → Except GErr (FState × Bool)) : Prop :=
+  ∀ st g st' r, step st g = .ok (st', r) →
+    st'.gs = st.gs ∨ ∃ nested incl g', decomposeGlyph st.gs nested incl g = .ok g' ∧ st'.gs = st.gs.set g.name g'
+
+theorem decomposeStep_isDecomp : IsDecompStep decomposeStep := by
+  intro st g st' r h
+  unfold decomposeStep at h
+  by_cases he : g.comps.isEmpty = true
+  · rw [if_pos he] at h; have := Except.ok.inj h; left; rw [← (Prod.mk.inj this).1]
+  · rw [if_neg he] at h
+    cases hd : decomposeGlyph st.gs true none g with
+    | error e => rw [hd] at h; cases h
+    | ok g' =>
+      rw [hd] at h
+      have := Except.ok.inj h
+      right; exact ⟨true, none, g', hd, by rw [← (Prod.mk.inj this).1]⟩
+
+theorem decomposeTransformedStep_isDecomp : IsDecompStep decomposeTransformedStep := by
+  intro st g st' r h
+  unfold decomposeTransformedStep at h
+  by_cases he : g.comps.any isTransformed = true
+  · rw [if_pos he] at h; exact decomposeStep_isDecomp st g st' r h
+  · rw [if_neg he] at h; have := Except.ok.inj h; left; rw [← (Prod.mk.inj this).1]
+
+theorem skipExportStep_isDecomp (skip : List String) : IsDecompStep (skipExportStep skip) := by
+  intro st g st' r h
+  unfold skipExportStep at h
+  by_cases he : (g.comps.isEmpty || !(g.comps.any (fun k => skip.contains k.base))) = true
+  · rw [if_pos he] at h; have := Except.ok.inj h; left; rw [← (Prod.mk.inj this).1]
+  · rw [if_neg he] at h
+    cases hd : decomposeGlyph st.gs false (some skip) g with
+    | error e => rw [hd] at h; cases h
+    | ok g' =>
+      rw [hd] at h
+      have := Except.ok.inj h
+      right; exact ⟨false, some skip, g', hd, by rw [← (Prod.mk.inj this).1]⟩
+
+theorem decomposeGlyph_name (gs : GlyphSet) (nested : Bool) (incl : Option (List String)) (g g' : Glyph)
+    (h : decomposeGlyph gs nested incl g = .ok g') : g'.name = g.name := by
+  unfold decomposeGlyph at h
+  cases hd : addComps (gs.length + 1) gs true nested incl Affine.id g.comps with
+  | error e => rw [hd] at h; cases h
+  | ok d => rw [hd] at h; have := Except.ok.inj h; subst this; rfl
+
+theorem named_set (gs : GlyphSet) (hn : Named gs) (name : String) (g g' : Glyph) (hget : gs.get? name = some g)
+    (hname : g'.name = name) : Named (gs.set name g') := by
+  intro n h hh
+  rw [get?_set gs name n g g' hget] at hh
+  by_cases e : n = name
+  · rw [if_pos e] at hh; have := Option.some.inj hh; subst this; rw [hname, e]
+  · rw [if_neg e] at hh; exact hn n h hh
+
+/-- a filter step that keeps the glyph set well-formed and keeps every glyph's drawing -/
+def StepOK (rank : String → Nat) (step : FState → Glyph → Except GErr (FState × Bool)) : Prop :=
+  ∀ st g st' r, step st g = .ok (st', r) → st.gs.get? g.name = some g → Good st.gs rank → Named st.gs →
+    Good st'.gs rank ∧ Named st'.gs ∧ SameRender rank st'.gs st.gs
+
+theorem stepOK_of_isDecomp (rank : String → Nat) (step : FState → Glyph → Except GErr (FState × Bool))
+    (hstep : IsDecompStep step) : StepOK rank step := by
+  intro st g st1 r hs hget hg hn
+  rcases hstep st g st1 r hs with e | ⟨nested, incl', g', hd, e⟩
+  · rw [e]; exact ⟨hg, hn, SameRender.refl rank _⟩
+  · rw [e]
+    exact ⟨decompose_set_good st.gs rank hg nested incl' g.name g g' hget hd,
+      named_set st.gs hn g.name g g' hget (decomposeGlyph_name st.gs nested incl' g g' hd),
+      decompose_set_sameRender st.gs rank hg nested incl' g.name g g' hget hd⟩
+
+/-- **Theorem C — the whole traversal.**  Whatever the visiting order (the list is arbitrary: depth-ordered, with the
+    measured depth under-count, or any other), whatever the include predicate, and whichever render-preserving step is
+    used (full / transformed-only decomposition, skip-export with nested=False, flattening): the resulting glyph set is
+    again well-formed and every glyph draws what it drew before. -/
+theorem filterLoop_sameRender (step : FState → Glyph → Except GErr (FState × Bool)) (rank : String → Nat)
+    (hstep : StepOK rank step) (incl : String → Bool) :
+    ∀ (order : List String) (st st' : FState), filterLoop step incl order st = .ok st' →
+      Good st.gs rank → Named st.gs →
+      Good st'.gs rank ∧ Named st'.gs ∧ SameRender rank st'.gs st.gs := by
+  intro order
+  induction order with
+  | nil =>
+    intro st st' h hg hn
+    simp only [filterLoop] at h
+    have := Except.ok.inj h; subst this
+    exact ⟨hg, hn, SameRender.refl rank _⟩
+  | cons n ns ih =>
+    intro st st' h hg hn
+    unfold filterLoop at h
+    by_cases hm : st.modified.contains n = true
+    · rw [if_pos hm] at h; exact ih st st' h hg hn
+    · rw [if_neg hm] at h
+      cases hget : st.gs.get? n with
+      | none => rw [hget] at h; cases h
+      | some g =>
+        rw [hget] at h
+        dsimp only at h
+        by_cases hi : incl n = true
+        · rw [if_pos hi] at h
+          cases hs : step st g with
+          | error e => rw [hs] at h; cases h
+          | ok res =>
+            obtain ⟨st1, r⟩ := res
+            rw [hs] at h
+            dsimp only at h
+            have hname : g.name = n := hn n g hget
+            have key := hstep st g st1 r hs (by rw [hname]; exact hget) hg hn
+            by_cases hr : r = true
+            · rw [if_pos hr] at h
+              have := ih _ st' h key.1 key.2.1
+              exact ⟨this.1, this.2.1, this.2.2.trans key.2.2⟩
+            · rw [if_neg hr] at h
+              have := ih _ st' h key.1 key.2.1
+              exact ⟨this.1, this.2.1, this.2.2.trans key.2.2⟩
+        · rw [if_neg hi] at h; exact ih st st' h hg hn
+
+/-- **C15 / C01 / C02 / C13 corollary**: running DecomposeComponentsFilter, DecomposeTransformedComponentsFilter or
+    the decomposition phase of SkipExportGlyphsFilter over a well-formed glyph set changes no glyph's drawing. -/
+theorem runFilter_sameRender (step : FState → Glyph → Except GErr (FState × Bool)) (rank : String → Nat)
+    (hstep : StepOK rank step) (incl : String → Bool) (gs : GlyphSet) (st : FState)
+    (h : runFilter step incl gs = .ok st) (hg : Good gs rank) (hn : Named gs) :
+    Good st.gs rank ∧ Named st.gs ∧ SameRender rank st.gs gs := by
+  unfold runFilter at h
+  cases ho : orderedGlyphs gs with
+  | error e => rw [ho] at h; cases h
+  | ok order =>
+    rw [ho] at h
+    exact filterLoop_sameRender step rank hstep incl order ⟨gs, [], []⟩ st h hg hn
 
 end Ufo2ft
